@@ -4,6 +4,7 @@ import (
 	"bytes"
 	"context"
 	"encoding/hex"
+	"encoding/json"
 	"fmt"
 	"sort"
 	"strings"
@@ -46,12 +47,106 @@ var c10Classes = []strClass{
 	{"hex-escape-text", `a\x41b`},
 	{"double-backslash", `a\\b`},
 	{"trailing-backslash", `ab\`},
+	// the empty string: an absent idempotency key / reference / schema version (the
+	// request fields are omitted), an empty metadata key, an empty metadata value
+	{"empty", ""},
 }
 
 // quick tier pairs use this subset of classes (all classes in the thorough tier).
 var c10QuickPairClasses = map[string]bool{"dquote": true, "backslash": true, "lt": true, "nonascii": true, "u2028": true, "newline": true}
 
 var c10Fields = []string{"ik", "schemaVersion", "metaKey", "metaValue", "reference", "accMetaValue", "revertMeta", "address"}
+
+// ---------- the SHAPE dimension ----------
+//
+// A shape field does not vary the characters of a string but the JSON shape of a whole
+// document of the request: null (a nil map, what a `null` body decodes to), empty ({}),
+// or, for the per-account metadata of a creation, an entry that is itself null or empty.
+// The non-empty shape is what every other case already uses.
+
+type c10ShapeField struct {
+	Name   string
+	Shapes []string
+}
+
+var c10ShapeFields = []c10ShapeField{
+	// the metadata document of the operation under test: the body of a SET_METADATA on a
+	// transaction or an account, the metadata of a created transaction (post), the request
+	// metadata of a script run, the metadata of a revert
+	{"metaDoc", []string{"null", "empty"}},
+	// the accountMetadata document of a creation (post / script)
+	{"accMetaDoc", []string{"null", "empty", "null-entry", "empty-entry"}},
+}
+
+func isShapeField(name string) bool {
+	for _, f := range c10ShapeFields {
+		if f.Name == name {
+			return true
+		}
+	}
+	return false
+}
+
+// applyShape gives the document of op the requested shape. It is applied when a case is
+// built AND again when it is executed: the JSON form of an lx.Op (replay files) cannot
+// tell a nil map from an empty one, the (field, shape) names of the case can.
+func applyShape(op *lx.Op, field, shape string) {
+	switch field {
+	case "metaDoc":
+		switch shape {
+		case "null":
+			op.Meta = nil
+		case "empty":
+			op.Meta = map[string]string{}
+		}
+	case "accMetaDoc":
+		switch shape {
+		case "null":
+			op.AccMeta = nil
+		case "empty":
+			op.AccMeta = map[string]map[string]string{}
+		case "null-entry":
+			op.AccMeta = map[string]map[string]string{"a": nil}
+		case "empty-entry":
+			op.AccMeta = map[string]map[string]string{"a": {}}
+		}
+	}
+}
+
+// applyShapes shapes the operation under test (the last one) of a case.
+func applyShapes(ops []lx.Op, fields, classes []string) {
+	if len(ops) == 0 {
+		return
+	}
+	for i, f := range fields {
+		if isShapeField(f) {
+			applyShape(&ops[len(ops)-1], f, classes[i])
+		}
+	}
+}
+
+// c10Dim is one dimension of the input space: a free-text field with its character
+// classes or a shape field with its shapes.
+type c10Dim struct {
+	Name    string
+	Classes []strClass
+	Shape   bool
+}
+
+func c10Dims() []c10Dim {
+	var out []c10Dim
+	for _, f := range c10Fields {
+		out = append(out, c10Dim{Name: f, Classes: c10Classes})
+	}
+	for _, f := range c10ShapeFields {
+		d := c10Dim{Name: f.Name, Shape: true}
+		for _, sh := range f.Shapes {
+			d.Classes = append(d.Classes, strClass{Name: sh, S: sh})
+		}
+		out = append(out, d)
+	}
+	return out
+}
 
 // assign gives the injected string of each assigned field and remembers which fields a
 // template consumed.
@@ -101,8 +196,14 @@ func c10Templates() []c10Template {
 	return []c10Template{
 		{"post", func(a *assign) []lx.Op {
 			op := lx.Op{Kind: "post", Postings: []lx.P{fund}, Ref: a.get("reference", "")}
-			op.Meta = map[string]string{a.get("metaKey", "k"): a.get("metaValue", "v")}
-			if a.has("accMetaValue") {
+			if a.has("metaDoc") {
+				a.get("metaDoc", "") // the whole document is shaped by applyShapes
+			} else {
+				op.Meta = map[string]string{a.get("metaKey", "k"): a.get("metaValue", "v")}
+			}
+			if a.has("accMetaDoc") {
+				a.get("accMetaDoc", "")
+			} else if a.has("accMetaValue") {
 				op.AccMeta = map[string]map[string]string{"a": {"k": a.get("accMetaValue", "v")}}
 			}
 			return []lx.Op{deco(a, op)}
@@ -110,24 +211,41 @@ func c10Templates() []c10Template {
 		{"script", func(a *assign) []lx.Op {
 			op := lx.Op{Kind: "script", Script: c10Script, Ref: a.get("reference", ""),
 				Vars: map[string]string{"v": a.get("metaValue", "v"), "w": a.get("accMetaValue", "w")}}
-			if a.has("metaKey") {
+			if a.has("metaDoc") {
+				a.get("metaDoc", "")
+			} else if a.has("metaKey") {
 				op.Meta = map[string]string{a.get("metaKey", "k2"): "x"}
+			}
+			if a.has("accMetaDoc") {
+				a.get("accMetaDoc", "")
 			}
 			return []lx.Op{deco(a, op)}
 		}},
 		{"revert", func(a *assign) []lx.Op {
 			op := lx.Op{Kind: "revert", TxID: 1, Force: true}
-			if a.has("revertMeta") || a.has("metaKey") {
+			if a.has("metaDoc") {
+				a.get("metaDoc", "")
+			} else if a.has("revertMeta") || a.has("metaKey") {
 				op.Meta = map[string]string{a.get("metaKey", "k"): a.get("revertMeta", "v")}
 			}
 			return []lx.Op{{Kind: "post", Postings: []lx.P{fund}}, deco(a, op)}
 		}},
 		{"txmeta", func(a *assign) []lx.Op {
-			op := lx.Op{Kind: "txmeta", TxID: 1, Meta: map[string]string{a.get("metaKey", "k"): a.get("metaValue", "v")}}
+			op := lx.Op{Kind: "txmeta", TxID: 1}
+			if a.has("metaDoc") {
+				a.get("metaDoc", "")
+			} else {
+				op.Meta = map[string]string{a.get("metaKey", "k"): a.get("metaValue", "v")}
+			}
 			return []lx.Op{{Kind: "post", Postings: []lx.P{fund}}, deco(a, op)}
 		}},
 		{"accmeta", func(a *assign) []lx.Op {
-			op := lx.Op{Kind: "accmeta", Address: a.get("address", "a"), Meta: map[string]string{a.get("metaKey", "k"): a.get("accMetaValue", "v")}}
+			op := lx.Op{Kind: "accmeta", Address: a.get("address", "a")}
+			if a.has("metaDoc") {
+				a.get("metaDoc", "")
+			} else {
+				op.Meta = map[string]string{a.get("metaKey", "k"): a.get("accMetaValue", "v")}
+			}
 			return []lx.Op{deco(a, op)}
 		}},
 		{"deltxmeta", func(a *assign) []lx.Op {
@@ -150,7 +268,7 @@ func c10Templates() []c10Template {
 // c10Case is one executable scenario.
 type c10Case struct {
 	Template string
-	Fields   []string // assigned fields (1 or 2), sorted by position in c10Fields
+	Fields   []string // assigned fields (1 or 2), in the order of c10Dims (free-text fields, then shape fields)
 	Classes  []string
 	Ops      []lx.Op
 }
@@ -177,7 +295,8 @@ func buildCases(fields []string, classes []strClass) []c10Case {
 		if len(a.used) != len(a.m) {
 			continue
 		}
-		if sv, ok := a.m["schemaVersion"]; ok && t.Name != "schema" {
+		applyShapes(ops, fields, names)
+		if sv, ok := a.m["schemaVersion"]; ok && t.Name != "schema" && sv != "" {
 			// a write can only name a schema version that exists: insert it first
 			ops = append([]lx.Op{{Kind: "schema", Schema: sv, SchemaData: `{"chart":{}}`}}, ops...)
 		}
@@ -189,15 +308,17 @@ func buildCases(fields []string, classes []strClass) []c10Case {
 // ---------- execution and oracle ----------
 
 type c10Finding struct {
-	Kind string // mismatch | sql-error | schemaVersion-omitted
+	Kind string // mismatch | readback-mismatch | written-mismatch | sql-error | schemaVersion-omitted
 	What string
 }
 
 type c10Result struct {
 	Accepted  bool   // the operation under test was accepted
 	Rejected  string // class of the validation rejection, when rejected
-	Compared  int    // hash comparisons made
+	Compared  int    // hash comparisons made (all views)
+	ByView    map[string]int
 	LogTypes  []string
+	Mementos  map[string]int // shapes seen in the memento bytes the trigger hashed
 	Findings  []c10Finding
 	EngineErr error
 }
@@ -207,35 +328,190 @@ var rejectionClasses = map[string]bool{
 	"metadata_override": true, "not_found": true, "idempotency_input_mismatch": true, "schema_already_exists": true,
 }
 
-// verifyChain recomputes every hash in Go and compares with what the trigger stored.
-func verifyChain(logs []ledger.Log, res *c10Result) {
-	var prev *ledger.Log
+// The views of "the same log" whose Go hash is compared with the stored one.
+const (
+	viewWritten = "written" // the log the controller returned from the write: the in-memory payload handed to InsertLog
+	viewStore   = "store"   // read back through the store: ListLogs (logs.data -> HydrateLog)
+	viewExport  = "export"  // read back through Export
+	viewStream  = "stream"  // the exported log encoded to JSON and decoded as the import endpoint decodes its stream
+)
+
+var c10Views = []string{viewWritten, viewStore, viewExport, viewStream}
+
+// mementoShapes are the document shapes looked for in the memento bytes of each log
+// (what the trigger hashed), for the evidence and the vacuity guards.
+var mementoShapes = []struct{ Name, Needle string }{
+	{"metadata:null", `"metadata":null`},
+	{"metadata:empty", `"metadata":{}`},
+	{"accountMetadata:null", `"accountMetadata":null`},
+	{"accountMetadata:empty", `"accountMetadata":{}`},
+	{"accountMetadata:null-entry", `"accountMetadata":{"a":null}`},
+	{"accountMetadata:empty-entry", `"accountMetadata":{"a":{}}`},
+}
+
+func goHash(l ledger.Log, prev *ledger.Log) []byte {
+	cp := l
+	cp.Hash = nil
+	cp.ComputeHash(prev)
+	return cp.Hash
+}
+
+func goMemento(l ledger.Log) string {
+	payload := l.Data.(any)
+	if m, ok := payload.(ledger.Memento); ok {
+		payload = m.GetMemento()
+	}
+	b, err := json.Marshal(payload)
+	if err != nil {
+		return "<" + err.Error() + ">"
+	}
+	return string(b)
+}
+
+// streamDecode is what travels between an export and an import: the export endpoint
+// writes json.Encoder(log), the import endpoint reads json.Decoder into ledger.Log.
+func streamDecode(logs []ledger.Log) ([]ledger.Log, error) {
+	out := make([]ledger.Log, len(logs))
 	for i := range logs {
-		l := logs[i]
+		b, err := json.Marshal(logs[i])
+		if err != nil {
+			return nil, err
+		}
+		if err := json.Unmarshal(b, &out[i]); err != nil {
+			return nil, fmt.Errorf("log %d %s: %w", i+1, b, err)
+		}
+	}
+	return out, nil
+}
+
+// verifyChain recomputes every hash in Go, chained on the stored hash of the predecessor
+// as Import chains them, from every view of the log, and compares with what the trigger
+// stored. views[viewStore] is the base (it gives the stored hashes); written maps a log
+// id to the log as the controller returned it from the write; mementos maps a log id to
+// the memento bytes the trigger hashed (diagnosis only).
+func verifyChain(views map[string][]ledger.Log, written map[uint64]ledger.Log, mementos map[uint64]string, res *c10Result) {
+	base := views[viewStore]
+	if res.ByView == nil {
+		res.ByView = map[string]int{}
+	}
+	if res.Mementos == nil {
+		res.Mementos = map[string]int{}
+	}
+	var prev *ledger.Log
+	for i := range base {
+		l := base[i]
 		stored := l.Hash
-		cp := l
-		cp.Hash = nil
-		cp.ComputeHash(prev)
-		res.Compared++
 		res.LogTypes = append(res.LogTypes, l.Type.String())
-		if !bytes.Equal(stored, cp.Hash) {
+		if m, ok := mementos[*l.ID]; ok {
+			for _, sh := range mementoShapes {
+				if strings.Contains(m, sh.Needle) {
+					res.Mementos[l.Type.String()+":"+sh.Name]++
+				}
+			}
+		}
+		type verdict struct {
+			view    string
+			hash    []byte
+			memento string
+		}
+		var bad []verdict
+		writtenOK, baseOK := false, true
+		for _, name := range c10Views {
+			var vl ledger.Log
+			if name == viewWritten {
+				w, ok := written[*l.ID]
+				if !ok {
+					continue
+				}
+				vl = w
+			} else {
+				vl = views[name][i]
+			}
+			h := goHash(vl, prev)
+			res.Compared++
+			res.ByView[name]++
+			if bytes.Equal(stored, h) {
+				if name == viewWritten {
+					writtenOK = true
+				}
+				continue
+			}
+			if name == viewStore {
+				baseOK = false
+			}
+			bad = append(bad, verdict{name, h, goMemento(vl)})
+		}
+		if len(bad) > 0 {
+			// Classification. readback-mismatch: the log as it was written hashes to the
+			// stored hash, the same log read back does not (the two sides of the store
+			// disagree on the payload). written-mismatch: the converse. mismatch: no Go view
+			// of the log agrees with the trigger.
 			kind := "mismatch"
-			if l.SchemaVersion != "" {
+			onlyWritten := len(bad) == 1 && bad[0].view == viewWritten
+			switch {
+			case onlyWritten:
+				kind = "written-mismatch"
+			case writtenOK:
+				kind = "readback-mismatch"
+			case baseOK:
+				kind = "readback-mismatch"
+			}
+			if kind == "mismatch" && l.SchemaVersion != "" {
 				// diagnosis: is the stored hash the hash of the same log without its schema version?
 				cp2 := l
-				cp2.Hash = nil
 				cp2.SchemaVersion = ""
-				cp2.ComputeHash(prev)
-				if bytes.Equal(stored, cp2.Hash) {
+				if bytes.Equal(stored, goHash(cp2, prev)) {
 					kind = "schemaVersion-omitted"
 				}
 			}
-			res.Findings = append(res.Findings, c10Finding{Kind: kind, What: fmt.Sprintf(
+			var names []string
+			for _, b := range bad {
+				names = append(names, b.view)
+			}
+			what := fmt.Sprintf(
 				"log %d (%s, idempotencyKey=%q, schemaVersion=%q): stored hash %s, Log.ComputeHash gives %s",
-				*l.ID, l.Type, l.IdempotencyKey, l.SchemaVersion, hex.EncodeToString(stored), hex.EncodeToString(cp.Hash))})
+				*l.ID, l.Type, l.IdempotencyKey, l.SchemaVersion, hex.EncodeToString(stored), hex.EncodeToString(bad[0].hash))
+			if kind != "mismatch" && kind != "schemaVersion-omitted" {
+				what += fmt.Sprintf(" for the log seen through %v (views agreeing with the trigger: %v); memento hashed by the trigger: %s ; memento of the %s log: %s",
+					names, agreeing(names, written, *l.ID), mementos[*l.ID], bad[0].view, bad[0].memento)
+			}
+			res.Findings = append(res.Findings, c10Finding{Kind: kind, What: what})
 		}
-		prev = &logs[i]
+		prev = &base[i]
 	}
+}
+
+func agreeing(bad []string, written map[uint64]ledger.Log, id uint64) []string {
+	var out []string
+	for _, v := range c10Views {
+		if v == viewWritten {
+			if _, ok := written[id]; !ok {
+				continue
+			}
+		}
+		isBad := false
+		for _, b := range bad {
+			if b == v {
+				isBad = true
+			}
+		}
+		if !isBad {
+			out = append(out, v)
+		}
+	}
+	return out
+}
+
+func sameIDs(a, b []ledger.Log) bool {
+	if len(a) != len(b) {
+		return false
+	}
+	for i := range a {
+		if a[i].ID == nil || b[i].ID == nil || *a[i].ID != *b[i].ID || !bytes.Equal(a[i].Hash, b[i].Hash) {
+			return false
+		}
+	}
+	return true
 }
 
 func runC10Case(ctx context.Context, boot *pgsim.DB, c c10Case) c10Result {
@@ -248,11 +524,17 @@ func runC10Case(ctx context.Context, boot *pgsim.DB, c c10Case) c10Result {
 		res.EngineErr = err
 		return res
 	}
-	for i, op := range c.Ops {
+	ops := cloneOps(c.Ops)
+	applyShapes(ops, c.Fields, c.Classes) // a replay file cannot tell nil from {}: see applyShape
+	written := map[uint64]ledger.Log{}
+	for i, op := range ops {
 		out := lx.Apply(ctx, ctrl, op)
 		if out.OK() {
-			if i == len(c.Ops)-1 {
+			if i == len(ops)-1 {
 				res.Accepted = true
+			}
+			if out.Log != nil && out.Log.ID != nil && !out.Hit {
+				written[*out.Log.ID] = *out.Log
 			}
 			continue
 		}
@@ -262,21 +544,54 @@ func runC10Case(ctx context.Context, boot *pgsim.DB, c c10Case) c10Result {
 		}
 		if code, ok := isSQLError(out.Err); ok {
 			res.Findings = append(res.Findings, c10Finding{Kind: "sql-error", What: fmt.Sprintf(
-				"%s (op %d of %v) was refused by the database, SQLSTATE %s: %v", op.Kind, i+1, opNames(c.Ops), code, out.Err)})
+				"%s (op %d of %v) was refused by the database, SQLSTATE %s: %v", op.Kind, i+1, opNames(ops), code, out.Err)})
 		} else if rejectionClasses[out.Class] {
 			res.Rejected = out.Class
 		} else {
-			res.EngineErr = fmt.Errorf("unclassified failure of %s in %v: [%s] %v", op, opNames(c.Ops), out.Class, out.Err)
+			res.EngineErr = fmt.Errorf("unclassified failure of %s in %v: [%s] %v", op, opNames(ops), out.Class, out.Err)
 			return res
 		}
 		break
 	}
-	logs, err := lx.ListLogs(ctx, ctrl)
-	if err != nil {
+	views := map[string][]ledger.Log{}
+	if views[viewStore], err = lx.ListLogs(ctx, ctrl); err != nil {
 		res.EngineErr = fmt.Errorf("ListLogs: %w", err)
 		return res
 	}
-	verifyChain(logs, &res)
+	if views[viewExport], err = exportLogs(ctx, ctrl); err != nil {
+		res.EngineErr = fmt.Errorf("Export: %w", err)
+		return res
+	}
+	if views[viewStream], err = streamDecode(views[viewExport]); err != nil {
+		res.EngineErr = fmt.Errorf("decoding the export stream: %w", err)
+		return res
+	}
+	for _, v := range []string{viewExport, viewStream} {
+		if !sameIDs(views[viewStore], views[v]) {
+			res.EngineErr = fmt.Errorf("view %s does not carry the same log ids and stored hashes as ListLogs (%d logs vs %d)", v, len(views[v]), len(views[viewStore]))
+			return res
+		}
+	}
+	rows, err := lx.RawRows(ctx, w, `select id, encode(memento, 'hex') from "_default".logs where ledger = 'l1' order by id`)
+	if err != nil {
+		res.EngineErr = fmt.Errorf("reading mementos: %w", err)
+		return res
+	}
+	mementos := map[uint64]string{}
+	for _, row := range rows {
+		var id uint64
+		if _, err := fmt.Sscan(row[0], &id); err != nil {
+			res.EngineErr = fmt.Errorf("reading mementos: id %q", row[0])
+			return res
+		}
+		b, err := hex.DecodeString(row[1])
+		if err != nil {
+			res.EngineErr = fmt.Errorf("reading mementos: %v", err)
+			return res
+		}
+		mementos[id] = string(b)
+	}
+	verifyChain(views, written, mementos, &res)
 	return res
 }
 
@@ -292,21 +607,26 @@ func runC10(r *ev.Run) (ev.Coverage, []string) {
 		return nil, assumptions
 	}
 	// ----- enumerate the finite space
+	dims := c10Dims()
 	var singles, pairs []c10Case
-	for _, f := range c10Fields {
-		for _, cl := range c10Classes {
-			singles = append(singles, buildCases([]string{f}, []strClass{cl})...)
+	for _, d := range dims {
+		for _, cl := range d.Classes {
+			singles = append(singles, buildCases([]string{d.Name}, []strClass{cl})...)
 		}
 	}
 	fullPairs := r.Thorough()
-	for i, f1 := range c10Fields {
-		for _, f2 := range c10Fields[i+1:] {
-			for _, c1 := range c10Classes {
-				for _, c2 := range c10Classes {
-					if !fullPairs && !(c10QuickPairClasses[c1.Name] && c10QuickPairClasses[c2.Name]) {
+	inPairs := func(d c10Dim, cl strClass) bool {
+		// every shape is cheap enough to be paired in both tiers
+		return fullPairs || d.Shape || c10QuickPairClasses[cl.Name]
+	}
+	for i, d1 := range dims {
+		for _, d2 := range dims[i+1:] {
+			for _, c1 := range d1.Classes {
+				for _, c2 := range d2.Classes {
+					if !inPairs(d1, c1) || !inPairs(d2, c2) {
 						continue
 					}
-					pairs = append(pairs, buildCases([]string{f1, f2}, []strClass{c1, c2})...)
+					pairs = append(pairs, buildCases([]string{d1.Name, d2.Name}, []strClass{c1, c2})...)
 				}
 			}
 		}
@@ -319,11 +639,15 @@ func runC10(r *ev.Run) (ev.Coverage, []string) {
 	failingSingle := map[string]bool{} // field:class that fails on its own
 	logTypes := map[string]int64{}
 	kindCount := map[string]int64{}
+	byView := map[string]int64{}           // hash comparisons per view of the log
+	mementoShape := map[string]int64{}     // <log type>:<document>:<shape> seen in the hashed memento bytes
+	shapeAccepted := map[string][]string{} // shape field:shape -> templates whose write was accepted (single cases)
 	samples := ev.NewSamples(6)
 
 	report := func(c c10Case, f c10Finding, sig string) {
 		r.Violation(sig, fmt.Sprintf("template %s with %s: %s", c.Template, strings.Join(c.parts(), " + "), f.What),
-			map[string]any{"ledger": "l1 (default features, HASH_LOGS=SYNC)", "template": c.Template, "fields": c.Fields, "classes": c.Classes, "ops": c.Ops})
+			map[string]any{"ledger": "l1 (default features, HASH_LOGS=SYNC)", "template": c.Template, "fields": c.Fields, "classes": c.Classes, "ops": c.Ops,
+				"note": "shape fields (metaDoc, accMetaDoc) are re-applied to the last op from fields/classes at execution: JSON cannot tell a nil map from an empty one"})
 	}
 
 	type pendingFinding struct {
@@ -345,6 +669,15 @@ func runC10(r *ev.Run) (ev.Coverage, []string) {
 			evaluations += int64(res.Compared)
 			for _, t := range res.LogTypes {
 				logTypes[t]++
+			}
+			for v, n := range res.ByView {
+				byView[v] += int64(n)
+			}
+			for k, n := range res.Mementos {
+				mementoShape[k] += int64(n)
+			}
+			if single && res.Accepted && isShapeField(c.Fields[0]) {
+				shapeAccepted[c.parts()[0]] = append(shapeAccepted[c.parts()[0]], c.Template)
 			}
 			key := c.Template + "|" + strings.Join(c.parts(), "+")
 			if res.Accepted {
@@ -415,6 +748,32 @@ func runC10(r *ev.Run) (ev.Coverage, []string) {
 		if accepted == 0 {
 			r.EngineError("vacuous: no injected write was accepted")
 		}
+		// every view of the log must have been hashed
+		for _, v := range c10Views {
+			if byView[v] == 0 {
+				r.EngineError("vacuous: no log was ever hashed through the view " + v)
+			}
+		}
+		// the shape dimension: every shape must have reached an accepted write, and the
+		// documents the trigger hashed must really have taken more than one shape
+		for _, f := range c10ShapeFields {
+			for _, sh := range f.Shapes {
+				if len(shapeAccepted[f.Name+":"+sh]) == 0 {
+					r.EngineError("vacuous: no write with " + f.Name + " of shape " + sh + " was accepted")
+				}
+			}
+		}
+		for _, t := range []string{"SET_METADATA", "NEW_TRANSACTION"} {
+			if mementoShape[t+":metadata:null"] == 0 && mementoShape[t+":metadata:empty"] == 0 {
+				r.EngineError("vacuous: no " + t + " log was hashed with a null or empty metadata document (the shape dimension never reached the hashed bytes)")
+			}
+		}
+		if mementoShape["NEW_TRANSACTION:accountMetadata:null"]+mementoShape["NEW_TRANSACTION:accountMetadata:empty"] == 0 {
+			r.EngineError("vacuous: no NEW_TRANSACTION log was hashed with a null or empty accountMetadata document")
+		}
+	}
+	for k := range shapeAccepted {
+		sort.Strings(shapeAccepted[k])
 	}
 	var rej []string
 	for k, v := range rejected {
@@ -429,9 +788,9 @@ func runC10(r *ev.Run) (ev.Coverage, []string) {
 		fs = append(fs, k)
 	}
 	sort.Strings(fs)
-	pairRule := "all pairs of (field,class) over two distinct fields"
+	pairRule := "all pairs of (dimension,class) over two distinct dimensions"
 	if !fullPairs {
-		pairRule = "pairs of (field,class) over two distinct fields with classes restricted to {dquote, backslash, lt, nonascii, u2028, newline} (all classes in the thorough tier)"
+		pairRule = "pairs of (dimension,class) over two distinct dimensions with character classes restricted to {dquote, backslash, lt, nonascii, u2028, newline} and every shape (all classes in the thorough tier)"
 	}
 	cov := ev.Coverage{
 		"evaluations":            evaluations,
@@ -446,10 +805,15 @@ func runC10(r *ev.Run) (ev.Coverage, []string) {
 		"hashes_by_log_type":     logTypes,
 		"fields":                 c10Fields,
 		"classes":                classNames(),
+		"shape_fields":           c10ShapeFields,
+		"shapes_accepted_on":     shapeAccepted,
+		"hashes_by_view":         byView,
+		"memento_shapes_hashed":  mementoShape,
 		"samples":                samples.List(),
 		"exhaustive":             doneSingles && donePairs,
-		"rule": "for every template (post, script with set_tx_meta/set_account_meta, revert, tx/account metadata set and delete, schema insertion) x every free-text field that applies to it (idempotency key, schema version, metadata key, metadata value, reference, account-metadata value, revert metadata, account address) x every character class, singly, then " + pairRule +
-			": the write goes through the real system controller on a HASH_LOGS=SYNC ledger on pgsim (the hash is computed by the set_log_hash trigger executed from the migration text); afterwards every stored hash of the ledger is compared with Log.ComputeHash(previous) recomputed in Go from the logs read back through ListLogs. A write refused by the database itself (SQLSTATE) is a finding of kind sql-error; a validation rejection is only counted.",
+		"rule": "for every template (post, script with set_tx_meta/set_account_meta, revert, tx/account metadata set and delete, schema insertion) x every dimension that applies to it x every class of the dimension, singly, then " + pairRule +
+			". Dimensions: (a) free-text fields (idempotency key, schema version, metadata key, metadata value, reference, account-metadata value, revert metadata, account address) x character classes, among which the EMPTY string (absent idempotency key / reference / schema version, empty metadata key or value); (b) SHAPE fields: metaDoc = the metadata document of the operation under test (body of SET_METADATA on a transaction / an account, metadata of a created transaction, request metadata of a script, metadata of a revert) in {null (nil map, what a `null` body decodes to), empty {}}, accMetaDoc = the accountMetadata document of a creation in {null, empty {}, one entry that is null, one entry that is {}} (the non-empty shape is what all other cases use). " +
+			"The write goes through the real system controller on a HASH_LOGS=SYNC ledger on pgsim (the hash is computed by the set_log_hash trigger executed from the migration text); afterwards every stored hash of the ledger is compared with Log.ComputeHash(predecessor), chained on the stored hash of the predecessor as Import chains them, recomputed in Go from FOUR views of the same log: written (the log the controller returned from the write, i.e. the in-memory payload handed to InsertLog), store (read back through ListLogs), export (read back through Export), stream (the exported log encoded by json.Encoder and decoded into ledger.Log as the import endpoint decodes its stream). Finding kinds: mismatch (no view agrees with the trigger), readback-mismatch (the written log agrees with the trigger, the log read back does not: write path and read path disagree on the payload), written-mismatch (the converse), schemaVersion-omitted, sql-error (write refused by the database itself, SQLSTATE); a validation rejection is only counted. memento_shapes_hashed counts the document shapes found in the memento bytes the trigger actually hashed.",
 	}
 	return cov, assumptions
 }
